@@ -152,7 +152,7 @@ class Core:
         goal = S.lift(goal)
         if goal.s != BOOL:
             raise EngineError("obligation %s is not boolean" % kind)
-        base = "%s::%s::%s%s@L%d" % (self.target.path, self.target.qualname, kind, ("[" + tag + "]") if tag else "", line)
+        base = "%s::%s::%s%s@L%d" % (self.target.path, self.target.display, kind, ("[" + tag + "]") if tag else "", line)
         k = self.counter.get(base, 0)
         self.counter[base] = k + 1
         name = base if k == 0 else "%s#%d" % (base, k)
@@ -190,7 +190,7 @@ class Core:
         self.emit(kind, line, st, S.And(*[g for n, g in parts]), tag=tag)
         o = self.obls[-1]
         suffix = o.name[o.name.index("@L"):]
-        base = "%s::%s::%s" % (self.target.path, self.target.qualname, kind)
+        base = "%s::%s::%s" % (self.target.path, self.target.display, kind)
         o.parts = [("%s[%s]%s" % (base, n, suffix), g.t) for n, g in parts]
 
     def feasible(self, st, extra=None):
